@@ -1,12 +1,14 @@
 package checks
 
 import (
+	"context"
 	"fmt"
 	"strings"
 	"sync/atomic"
 	"testing"
 	"time"
 
+	"github.com/KevoDB/kevo/pkg/transaction"
 	"github.com/KevoDB/kevo/pkg/wal"
 	"github.com/KevoDB/kevo/zsim/kit"
 	"github.com/KevoDB/kevo/zsim/simrt"
@@ -32,7 +34,7 @@ type ConcCase struct {
 	PSeed   uint64     `json:"pseed"`
 }
 
-var concOps = []string{"put", "put", "get", "get", "del", "isdel", "scan", "range", "batch", "txn", "rotxn", "flush", "compact", "crange", "stats", "cstats", "sleep"}
+var concOps = []string{"put", "put", "get", "get", "del", "isdel", "scan", "range", "batch", "txn", "rotxn", "flush", "compact", "crange", "stats", "cstats", "sleep", "regro", "regro", "regrw"}
 
 func runC07(t *testing.T, c ConcCase) *kit.Result {
 	res := kit.NewResult()
@@ -53,6 +55,9 @@ func runC07(t *testing.T, c ConcCase) *kit.Result {
 			return
 		}
 		key := func(i int) []byte { return []byte(fmt.Sprintf("ck%02d", i)) }
+		// the transaction registry the gRPC service keeps its handles in: its
+		// handlers run concurrently, one goroutine per request
+		reg := transaction.NewRegistryWithTTL(5*time.Minute, 2*time.Minute, 75, 90)
 		var wg simsync.WaitGroup
 		// shared between the clients and the watchdog: real atomics, so that the
 		// harness itself is race-free in ThreadSanitizer's eyes
@@ -117,6 +122,18 @@ func runC07(t *testing.T, c ConcCase) *kit.Result {
 							for it.SeekToFirst(); it.Valid(); it.Next() {
 							}
 							tx.Commit()
+						}
+					case "regro", "regrw":
+						ctx := context.WithValue(context.Background(), "peer", fmt.Sprintf("conn%d", ci))
+						if id, err := reg.Begin(ctx, e, op == "regro"); err == nil {
+							if tx, ok := reg.Get(id); ok {
+								tx.Get(k)
+								if op == "regrw" {
+									tx.Put(k, val)
+								}
+								tx.Commit()
+							}
+							reg.Remove(id)
 						}
 					case "flush":
 						e.FlushImMemTables()
@@ -265,6 +282,6 @@ func TestC07(t *testing.T) {
 			return out
 		},
 		Strip: func(c ConcCase) any { d := c; d.Sched = kit.Sched{}; return d },
-		Rule:  "2-6 client tasks, each 2-16 calls drawn from {Put, Get, Delete, IsDeleted, full scan, range scan + Seek, ApplyBatch, read-write transaction (get/put/iterator/commit or rollback), read-only transaction (get/range iterator), FlushImMemTables, TriggerCompaction, CompactRange, GetStats, GetCompactionStats, pause} on 2-10 keys, memtables of 256B-64KB, compaction every 1-2 s, conc/dense seeded scheduling, optional stalls; binary built with -race; a run is a violation if ThreadSanitizer reports a race (signature = innermost kevo function of each of the two stacks), a task panics, the simulator finds nothing runnable with calls outstanding, or no call completes for 120 unstalled virtual seconds. non-trivial = >=2 clients and >=4 completed calls",
+		Rule:  "2-6 client tasks, each 2-16 calls drawn from {Put, Get, Delete, IsDeleted, full scan, range scan + Seek, ApplyBatch, read-write transaction (get/put/iterator/commit or rollback), read-only transaction (get/range iterator), FlushImMemTables, TriggerCompaction, CompactRange, GetStats, GetCompactionStats, registry begin/get/put/commit/remove by handle (read-only and read-write), pause} on 2-10 keys, memtables of 256B-64KB, compaction every 1-2 s, conc/dense seeded scheduling, optional stalls; binary built with -race; a run is a violation if ThreadSanitizer reports a race (signature = innermost kevo function of each of the two stacks), a task panics, the simulator finds nothing runnable with calls outstanding, or no call completes for 120 unstalled virtual seconds. non-trivial = >=2 clients and >=4 completed calls",
 	})
 }
